@@ -8,6 +8,7 @@ gateway (WSGI or ASGI), so both protocol implementations are real and only
 the network in between is virtual.
 """
 import asyncio
+import heapq
 import urllib.parse
 
 from vf.report import HarnessError, Livelock
@@ -31,13 +32,31 @@ def split_url(url):
 # ----------------------------------------------------- bridge for AsyncClient
 
 class BridgeAioWS:
+    """Client end of a WebSocket whose server end lives in the server world. Frames travel through the combined
+    world's delay line (net_send): with latency 0 that is an immediate hand-over."""
     def __init__(self, combo, ws):
         self.c = combo
         self.ws = ws
         self.cursor = 0
+        self.avail = 0              # frames that have reached the client
+        self.peer_closed = False    # the server's close has reached the client
         self.closed = False
         self._fut = None
-        ws.on_event = getattr(ws, 'on_event', []) + [self._wake]
+        self._told = (0, False)
+        ws.on_event = getattr(ws, 'on_event', []) + [self._on_event]
+        self._on_event()
+
+    def _on_event(self):
+        n, closed = len(self.ws.frames), bool(self.ws.server_closed)
+        if (n, closed) == self._told:
+            return
+        self._told = (n, closed)
+        self.c.net_send(lambda: self._arrive(n, closed))
+
+    def _arrive(self, n, closed):
+        self.avail = max(self.avail, n)
+        self.peer_closed = self.peer_closed or closed
+        self._wake()
 
     def _wake(self):
         f = self._fut
@@ -47,28 +66,29 @@ class BridgeAioWS:
 
     async def send_str(self, data):
         await asyncio.sleep(0)
-        if self.closed or self.ws.server_closed:
+        if self.closed or self.peer_closed:
             raise ConnectionResetError('Cannot write to closing transport')
-        self.c.sw.ws_send(self.ws, data)
+        self.c.net_send(lambda: self.c.sw.ws_send(self.ws, data))
 
     async def send_bytes(self, data):
         await asyncio.sleep(0)
-        if self.closed or self.ws.server_closed:
+        if self.closed or self.peer_closed:
             raise ConnectionResetError('Cannot write to closing transport')
-        self.c.sw.ws_send(self.ws, bytes(data))
+        data = bytes(data)
+        self.c.net_send(lambda: self.c.sw.ws_send(self.ws, data))
 
     async def receive(self, timeout=None):
         import aiohttp
         while True:
             if self.closed:
                 return aiohttp.WSMessage(aiohttp.WSMsgType.CLOSED, None, None)
-            if self.cursor < len(self.ws.frames):
+            if self.cursor < self.avail:
                 data = self.ws.frames[self.cursor][2]
                 self.cursor += 1
                 if isinstance(data, (bytes, bytearray)):
                     return aiohttp.WSMessage(aiohttp.WSMsgType.BINARY, bytes(data), None)
                 return aiohttp.WSMessage(aiohttp.WSMsgType.TEXT, data, None)
-            if self.ws.server_closed:
+            if self.peer_closed:
                 self.closed = True
                 return aiohttp.WSMessage(aiohttp.WSMsgType.CLOSE, 1000, '')
             self._fut = self.c.loop.create_future()
@@ -81,7 +101,7 @@ class BridgeAioWS:
         await asyncio.sleep(0)
         if not self.closed:
             self.closed = True
-            self.c.sw.ws_close(self.ws)
+            self.c.net_send(lambda: self.c.sw.ws_close(self.ws))
             self._wake()
         return True
 
@@ -97,19 +117,24 @@ class BridgeAioSession:
         await asyncio.sleep(0)
         path, query = split_url(url)
         body = data.encode('utf-8') if isinstance(data, str) else (data or b'')
-        req = self.c.sw.http(method, query, headers=dict(headers or {}), body=body, path=path)
-        self.c.log_request(method, url, body)
         fut = self.c.loop.create_future()
+        box = {}
 
-        def done():
+        def deliver():
             if not fut.done():
                 with self.c.loop.enter():
                     fut.set_result(None)
-        req.on_done = [done]
-        if req.done:
-            done()
+
+        def arrive():
+            req = box['req'] = self.c.sw.http(method, query, headers=dict(headers or {}), body=body, path=path)
+            self.c.log_request(method, url, body)
+            req.on_done = [lambda: self.c.net_send(deliver)]
+            if req.done:
+                self.c.net_send(deliver)
+        self.c.net_send(arrive)
         total = getattr(timeout, 'total', timeout)
         await asyncio.wait_for(fut, total)
+        req = box['req']
         if req.exc or req.status is None:
             return cworld.FakeAioResponse(500, b'Internal Server Error', 'text/plain')
         return cworld.FakeAioResponse(req.status, req.body or b'', req.header('Content-Type') or 'text/plain')
@@ -124,23 +149,33 @@ class BridgeAioSession:
         import aiohttp
         await asyncio.sleep(0)
         path, query = split_url(url)
-        ws = self.c.sw.ws(query, headers=dict(opts.get('headers') or {}), path=path)
         fut = self.c.loop.create_future()
+        box = {}
 
-        def ev():
-            if (ws.accepted or ws.rejected or ws.done) and not fut.done():
+        def deliver():
+            if not fut.done():
                 with self.c.loop.enter():
                     fut.set_result(None)
-        ws.on_event = [ev]
-        ev()
+
+        def arrive():
+            ws = box['ws'] = self.c.sw.ws(query, headers=dict(opts.get('headers') or {}), path=path)
+            box['bridge'] = BridgeAioWS(self.c, ws)
+            told = []
+
+            def ev():
+                if (ws.accepted or ws.rejected or ws.done) and not told:
+                    told.append(1)
+                    self.c.net_send(deliver)
+            ws.on_event = ws.on_event + [ev]
+            ev()
+        self.c.net_send(arrive)
         try:
             await asyncio.wait_for(fut, opts.get('timeout'))
         except asyncio.TimeoutError:
             raise aiohttp.client_exceptions.ServerTimeoutError()
-        if not ws.accepted:
+        if not box['ws'].accepted:
             raise aiohttp.client_exceptions.WSServerHandshakeError(None, (), status=400, message='Invalid response status')
-        ws.on_event = []
-        return BridgeAioWS(self.c, ws)
+        return box['bridge']
 
     async def close(self):
         self.closed = True
@@ -153,23 +188,40 @@ class BridgeSyncWS:
         self.c = combo
         self.ws = ws
         self.cursor = 0
+        self.avail = 0
+        self.peer_closed = False
         self.connected = True
         self.timeout = timeout
+        self._told = (0, False)
+        ws.on_event = getattr(ws, 'on_event', []) + [self._on_event]
+        self._on_event()
+
+    def _on_event(self):
+        n, closed = len(self.ws.frames), bool(self.ws.server_closed)
+        if (n, closed) == self._told:
+            return
+        self._told = (n, closed)
+        self.c.net_send(lambda: self._arrive(n, closed))
+
+    def _arrive(self, n, closed):
+        self.avail = max(self.avail, n)
+        self.peer_closed = self.peer_closed or closed
 
     def settimeout(self, t):
         self.timeout = t
 
     def send(self, data):
         self.c.sched.point('cws.send')
-        if not self.connected or self.ws.server_closed:
+        if not self.connected or self.peer_closed:
             raise cworld.WSClosed('socket is already closed.')
-        self.c.sw.ws_send(self.ws, data)
+        self.c.net_send(lambda: self.c.sw.ws_send(self.ws, data))
 
     def send_binary(self, data):
         self.c.sched.point('cws.send')
-        if not self.connected or self.ws.server_closed:
+        if not self.connected or self.peer_closed:
             raise cworld.WSClosed('socket is already closed.')
-        self.c.sw.ws_send(self.ws, bytes(data))
+        data = bytes(data)
+        self.c.net_send(lambda: self.c.sw.ws_send(self.ws, data))
 
     def recv(self):
         s = self.c.sched
@@ -177,14 +229,14 @@ class BridgeSyncWS:
         while True:
             if not self.connected:
                 raise cworld.WSClosed('socket is already closed.')
-            if self.cursor < len(self.ws.frames):
+            if self.cursor < self.avail:
                 data = self.ws.frames[self.cursor][2]
                 self.cursor += 1
                 return data
-            if self.ws.server_closed:
+            if self.peer_closed:
                 self.connected = False
                 raise cworld.WSClosed('Connection to remote host was lost.')
-            ok = s.block(lambda: self.cursor < len(self.ws.frames) or self.ws.server_closed or not self.connected,
+            ok = s.block(lambda: self.cursor < self.avail or self.peer_closed or not self.connected,
                          self.timeout, 'cws.recv')
             if not ok:
                 raise cworld.WSTimeout('timed out')
@@ -193,7 +245,7 @@ class BridgeSyncWS:
         self.c.sched.point('cws.close')
         if self.connected:
             self.connected = False
-            self.c.sw.ws_close(self.ws)
+            self.c.net_send(lambda: self.c.sw.ws_close(self.ws))
 
 
 class BridgeSyncSession:
@@ -209,11 +261,22 @@ class BridgeSyncSession:
         self.c.sched.point('http.request')
         path, query = split_url(url)
         body = data.encode('utf-8') if isinstance(data, str) else (data or b'')
-        req = self.c.sw.http(method, query, headers=dict(headers or {}), body=body, path=path)
-        self.c.log_request(method, url, body)
-        ok = self.c.sched.block(lambda: req.done, timeout, 'http.wait')
+        box = {}
+
+        def deliver():
+            box['ready'] = True
+
+        def arrive():
+            req = box['req'] = self.c.sw.http(method, query, headers=dict(headers or {}), body=body, path=path)
+            self.c.log_request(method, url, body)
+            req.on_done = [lambda: self.c.net_send(deliver)]
+            if req.done:
+                self.c.net_send(deliver)
+        self.c.net_send(arrive)
+        ok = self.c.sched.block(lambda: box.get('ready', False), timeout, 'http.wait')
         if not ok:
             raise cworld.FakeTimeout('read timed out')
+        req = box['req']
         if req.exc or req.status is None:
             return cworld.FakeResponse(500, b'Internal Server Error', 'text/plain')
         return cworld.FakeResponse(req.status, req.body or b'', req.header('Content-Type') or 'text/plain')
@@ -221,19 +284,35 @@ class BridgeSyncSession:
     def ws_connect(self, url, opts):
         self.c.sched.point('ws.connect')
         path, query = split_url(url)
-        ws = self.c.sw.ws(query, headers=dict(opts.get('header') or {}), path=path)
-        ok = self.c.sched.block(lambda: ws.accepted or ws.rejected or ws.done, opts.get('timeout'), 'ws.connect')
+        box = {}
+
+        def arrive():
+            ws = box['ws'] = self.c.sw.ws(query, headers=dict(opts.get('header') or {}), path=path)
+            box['bridge'] = BridgeSyncWS(self.c, ws, opts.get('timeout'))
+            told = []
+
+            def ev():
+                if (ws.accepted or ws.rejected or ws.done) and not told:
+                    told.append(1)
+                    self.c.net_send(lambda: box.__setitem__('answered', True))
+            ws.on_event = ws.on_event + [ev]
+            ev()
+        self.c.net_send(arrive)
+        ok = self.c.sched.block(lambda: box.get('answered', False), opts.get('timeout'), 'ws.connect')
         if not ok:
             raise cworld.WSTimeout('connect timed out')
-        if not ws.accepted:
+        if not box['ws'].accepted:
             raise cworld.WSException('Handshake status 400')
-        return BridgeSyncWS(self.c, ws, opts.get('timeout'))
+        return box['bridge']
 
 
 class ComboWorld:
     """client_impl / server_impl in {'sync', 'async'}."""
-    def __init__(self, client_impl, server_impl, server_kwargs=None, behaviour=None, client_kwargs=None):
+    def __init__(self, client_impl, server_impl, server_kwargs=None, behaviour=None, client_kwargs=None, latency=0.0):
         self.sh = Shared()
+        self.lat = latency          # one-way delay of the virtual network, in virtual seconds
+        self.net = []               # delay line: heap of (due, seq, fn)
+        self.netseq = 0
         self.clock = self.sh.clock
         self.sched = self.sh.sched
         self.loop = self.sh.loop
@@ -252,6 +331,15 @@ class ComboWorld:
             self.cw = cworld.SyncClientWorld(client_kwargs=client_kwargs, shared=self.sh, session=sess,
                                              ws_connect=sess.ws_connect)
         self.last = None
+
+    def net_send(self, fn):
+        """Hand `fn` (the arrival of a request, frame, response or close at the other side) to the network: at once
+        when the latency is zero, else `latency` virtual seconds from now; arrivals keep their sending order."""
+        if not self.lat:
+            fn()
+            return
+        heapq.heappush(self.net, (self.clock.now + self.lat, self.netseq, fn))
+        self.netseq += 1
 
     def log_request(self, method, url, body):
         self.requests.append((method, url, body, self.clock.now))
@@ -299,7 +387,8 @@ class ComboWorld:
                 raise Livelock('combined world does not quiesce within %d steps' % cap)
 
     def next_deadline(self):
-        ds = [d for d in (self.sched.next_deadline(), self.loop.next_deadline()) if d is not None]
+        ds = [d for d in (self.sched.next_deadline(), self.loop.next_deadline(), self.net[0][0] if self.net else None)
+              if d is not None]
         return min(ds) if ds else None
 
     def advance_to(self, t):
@@ -307,6 +396,8 @@ class ComboWorld:
             raise HarnessError('time going backwards')
         self.clock.now = t
         vclock.set_current(self.clock)
+        while self.net and self.net[0][0] <= t:
+            heapq.heappop(self.net)[2]()
         self.loop.fire_due()
 
     def run_until(self, t):
